@@ -274,7 +274,17 @@ def gen_stag(rng, depth):
     names = rng.sample(["m%d" % i for i in range(12)], n)
     for i in range(n):
         r = rng.random()
-        if r < 0.25:
+        if r < 0.12:
+            # BOOL members aliased onto the bits of a VISIBLE integer member (module-defined types do this)
+            k = rng.choice(["sint", "int", "dint"])
+            w = INTK[k][0]
+            if rng.random() < 0.8:
+                off = (off + w - 1) // w * w
+            members.append((names[i], ("int", k, k.upper()), off))
+            for bi, b in enumerate(rng.sample(range(8 * w), rng.choice([1, 2, 3]))):
+                bits.append(("%s_v%d" % (names[i], bi), off + b // 8, b % 8))
+            off += w
+        elif r < 0.25:
             host = "ZZZZZZZZZZ%s%d" % (names[i], i)
             members.append((host, ("int", "sint", "SINT"), off))
             priv.append(host)
@@ -420,6 +430,26 @@ def gen_valid(rng, d, budget=None):
                 out[mn] = gen_valid(rng, md)
         for (n, o, b) in d[3]:
             out[n] = rng.random() < 0.5
+        # BOOL members hosted in a visible integer: the canonical value has the host's bits equal to the BOOLs
+        # (otherwise the value is not a fixed point of encode/decode: the BOOL member wins, see C07)
+        inconsistent = rng.random() < 0.25
+        for (mn, md, off) in d[2]:
+            if mn in d[4] or md[0] != "int":
+                continue
+            w, signed = INTK[md[1]]
+            raw = out[mn] & ((1 << (8 * w)) - 1)
+            touched = False
+            for (n, o, b) in d[3]:
+                if off <= o < off + w:
+                    touched = True
+                    bit = 8 * (o - off) + b
+                    if inconsistent:
+                        continue
+                    raw = raw | (1 << bit) if out[n] else raw & ~(1 << bit)
+            if touched and inconsistent:
+                FLAGS.add("inconsistent-bits")
+            if touched:
+                out[mn] = raw - (1 << (8 * w)) if signed and raw >> (8 * w - 1) else raw
         return out
     if k == "ip":
         return ".".join(str(rng.choice([0, 1, 10, 127, 192, 255, rng.randint(0, 255)])) for _ in range(4))
